@@ -162,10 +162,24 @@ def run_case(case):
     fields = to_fields(tree)
     summary = {"access": access, "top_kind": case["top_kind"], "leaves": [(list(p), l[1], l[2]) for p, l in leaves][:24],
                "stim": case["stim_seed"]}
+    reinst = None
     try:
         if case["top_kind"] == "annot":
-            cls = type("AnnReg", (csr.Register,), {"__annotations__": dict(fields)}, access=access)
-            reg = cls()
+            if rng.random() < 0.5:
+                cls = type("AnnReg", (csr.Register,), {"__annotations__": dict(fields)}, access=access)
+                reg = cls()
+            else:
+                # access given per instance: the same class is instantiated several times
+                cls = type("AnnReg", (csr.Register,), {"__annotations__": dict(fields)})
+                reg = cls(access=access)
+                reinst = []
+                for other in ("r", "w", "rw"):
+                    bad = [p for p, (_l, act, _s) in leaves if any(ch not in other for ch in ACTIONS[act][0] if ch in "rw")]
+                    try:
+                        cls(access=other)
+                        reinst.append((other, bad, None))
+                    except Exception as e2:
+                        reinst.append((other, bad, e2))
         else:
             reg = csr.Register(fields, access=access)
         raised = None
@@ -179,6 +193,13 @@ def run_case(case):
                    f"{'succeeded' if raised is None else 'raised ' + repr(raised)}")
         else:
             mon.ok("accepted_compatible", raised is None, f"compatible collection was rejected: {raised!r}")
+        for other, bad, exc in (reinst or []):
+            if bad:
+                mon.ok("rejected_incompatible", isinstance(exc, (ValueError, TypeError)),
+                       f"second instance of the same annotated class with access '{other}' cannot serve fields {bad} but was "
+                       f"{'accepted' if exc is None else 'failed with ' + repr(exc)}")
+            else:
+                mon.ok("accepted_compatible", exc is None, f"second instance with access '{other}' was rejected: {exc!r}")
 
     mon.run(construction)
     if reg is None or mon.violations:
